@@ -292,6 +292,7 @@ type builder struct {
 	forceRows bool // every rows event carries at least one row
 	unitSID   uint32 // server id stamped on the events of the current unit (0 = the master's)
 	nameBase  int    // first binlog index of this master minus one
+	forceNextTx bool // the previous file ended with a torn transaction: the next unit must open with BEGIN
 }
 
 func (b *builder) curFile() *BinFile { return b.h.Files[b.file] }
@@ -813,6 +814,14 @@ func (b *builder) posOf(ev *Event) Pos {
 func (b *builder) addUnit(kind unitKind) {
 	s := b.s
 	h := b.h
+	if b.forceNextTx {
+		b.forceNextTx = false
+		switch kind {
+		case uTxXID, uTxCommit, uTxRollback:
+		default:
+			kind = uTxXID
+		}
+	}
 	u := &Unit{Kind: kind, File: b.file, Start: b.off}
 	b.unit = len(h.Units)
 	h.Units = append(h.Units, u)
@@ -897,12 +906,27 @@ func (b *builder) addUnit(kind unitKind) {
 		b.ignorable(ts)
 	case uRotate:
 		next := b.nextFileName()
-		b.add(evRotate, ts, 0, rotateBody(4, next), "ROTATE -> "+next)
+		switch s.Weighted(10, 1, 1) {
+		case 0:
+			b.add(evRotate, ts, 0, rotateBody(4, next), "ROTATE -> "+next)
+		case 1:
+			// clean master shutdown: the file ends with a STOP event, no ROTATE
+			b.add(evStop, ts, 0, nil, "STOP (master shutdown)")
+		case 2:
+			// master crash: the file ends with a torn transaction (BEGIN and changes,
+			// no commit) and no ROTATE; the next file starts a new transaction
+			b.queryEvent(ts, b.pickDB(), "BEGIN")
+			b.txBody(ts)
+			b.forceNextTx = true
+			u.Desc = "crash-with-torn-transaction"
+		}
 		u.End = b.off
 		u.Events = b.curFile().Events[startIdx:]
 		b.startFile(next, 0)
 		u.NewFile = b.file
-		u.Desc = unitKindNames[kind]
+		if u.Desc == "" {
+			u.Desc = unitKindNames[kind]
+		}
 		return
 	}
 	u.End = b.off
@@ -1082,6 +1106,9 @@ func genHistory(s *Stream, o0 *GenOpts) *History {
 			b.addUnit(uIgnorable)
 		}
 		if exact && s.Chance(1, 2) {
+			if b.forceNextTx {
+				b.addUnit(uTxXID) // after a torn transaction the next file opens with BEGIN
+			}
 			b.addExactUnit()
 			continue
 		}
@@ -1128,6 +1155,9 @@ func genHistory(s *Stream, o0 *GenOpts) *History {
 		b.addUnit(k)
 	}
 	if o.CountChange && s.Chance(1, 3) {
+		if b.forceNextTx {
+			b.addUnit(uTxXID)
+		}
 		b.addPoisonUnit()
 		if s.Chance(1, 2) {
 			b.addUnit(uTxXID) // never delivered: the stream ended at the poison unit
